@@ -43,6 +43,9 @@ SHARD_TIMEOUT = {'quick': 600, 'thorough': 2400}
 HDR = lambda length, t, body=b'': rw.MARKER + struct.pack('!HB', length, t) + body  # noqa: E731
 
 
+RACE_DELAYS = (0, 0.001, 0.004, 0.01, 0.03, 0.06, 0.09, 0.11, 0.2)
+
+
 def bad_marker():
     m = bytearray(rw.keepalive())
     m[5] = 0
@@ -94,6 +97,9 @@ def catalogue():
     c['open-rid-zero'] = (open_body(rid='0.0.0.0'), ('opensent',), {'*': {(2, 3)}})
     c['open-hold-1'] = (open_body(hold=1), ('opensent',), {'*': {(2, 6)}})
     c['open-hold-2'] = (open_body(hold=2), ('opensent',), {'*': {(2, 6)}})
+    # the same unacceptable hold times offered to a speaker which itself proposes 0 (the negotiated value is then 0, the offer is still 1 or 2)
+    c['open-hold-1:lh0'] = (open_body(hold=1), ('opensent',), {'*': {(2, 6)}})
+    c['open-hold-2:lh0'] = (open_body(hold=2), ('opensent',), {'*': {(2, 6)}})
     c['open-unknown-param'] = (open_body(raw_params=bytes([4, 9, 2, 0, 0])), ('opensent',), {'*': {(2, 4)}})
     c['open-short'] = (HDR(28, 1, b'\4' + b'\0' * 8), ('opensent',), {'*': {(1, 2)}})
     c['open-trunc-params'] = (open_body(raw_params=bytes([6, 2, 6, 1, 4, 0, 1])), ('opensent',), {'*': {(2, 0), (2, 4), (1, 2)}})
@@ -117,6 +123,14 @@ def catalogue():
     c['api-teardown-4'] = (None, ('established',), {'*': {(6, 4)}})
     c['api-teardown-2'] = (None, ('established', 'midbatch'), {'*': {(6, 2)}})
     c['shutdown'] = (None, ('established',), {'*': {(6, 2), (6, 3), (6, 0)}})
+    # two reasons to end the session within one read window of the peer loop (0.1 s): an API teardown and, d seconds later,
+    # a NOTIFICATION (or a header fault) from the peer. Whatever the order ExaBGP sees them in: at most one NOTIFICATION, and
+    # none written once the peer's NOTIFICATION has been read
+    for d in RACE_DELAYS:
+        c[f'race-teardown+notif:{d}'] = (rw.notification(4, 0), ('established',), {'*': 'race'})
+        c[f'race-teardown+marker:{d}'] = (bad_marker(), ('established',), {'*': 'race'})
+    for d in (0.85, 0.95, 1.0, 1.05, 1.15):
+        c[f'race-hold+notif:{d}'] = (rw.notification(6, 2, b'bye'), ('established',), {'*': 'race'})
     return c
 
 
@@ -125,10 +139,10 @@ def build_case(fault, state, mode, cat, gr=False):
     cfg = {
         'las': 65000,
         'pas': 65001,
-        'hold': 6 if fault == 'hold-expiry' else 90,
+        'hold': 6 if fault == 'hold-expiry' else 3 if fault.startswith('race-hold') else 0 if fault.endswith(':lh0') else 90,
         'families': [(1, 1), (2, 1)],
         'adjin': True,
-        'api': fault.startswith('api-'),
+        'api': fault.startswith('api-') or fault.startswith('race-teardown'),
         'listen': mode == 'passive',
         'passive': mode == 'passive',
         'routes': 1200 if state == 'midbatch' else 2,
@@ -147,7 +161,17 @@ def build_case(fault, state, mode, cat, gr=False):
     elif state == 'midbatch':
         steps += [['establish'], ['wait_msg', rw.UPDATE, 20.0, 30]]
     steps.append(['mark', 'inject'])
-    if data is not None:
+    if fault.startswith('race-teardown'):
+        d = float(fault.rsplit(':', 1)[1])
+        steps.append(['api', 'peer 127.0.0.1 teardown 4'])
+        if d:
+            steps.append(['sleep', d])
+        steps.append(['send', data.hex()])
+        steps.append(['wait_closed', 15.0])
+    elif fault.startswith('race-hold'):
+        d = float(fault.rsplit(':', 1)[1])
+        steps[-1:] = [['ka'], ['mark', 'inject'], ['sleep', 3.0 + d], ['send', data.hex()], ['wait_closed', 15.0]]
+    elif data is not None:
         steps.append(['send', data.hex()])
         steps.append(['wait_closed', 15.0])
     elif fault == 'hold-expiry':
@@ -211,8 +235,37 @@ def judge(res: Result, case, rec):
                 return
             if e['mtype'] == rw.NOTIFICATION:
                 seen_notif[e['conn']] = e['seq']
+    # read tap: once a NOTIFICATION has been read from a connection nothing at all is written to it
+    read_notif = {}
+    for e in rec['events']:
+        if e['kind'] == 'read' and e['mtype'] == rw.NOTIFICATION and not e.get('fault'):
+            read_notif.setdefault(e['conn'], e['seq'])
+        elif e['kind'] == 'write' and e['conn'] in read_notif and e['seq'] > read_notif[e['conn']]:
+            kind = 'NOTIFICATION' if e['mtype'] == rw.NOTIFICATION else f'type {e["mtype"]}'
+            res.violation(f'C10/answers-notification:wrote-after-reading-it:{"notification" if e["mtype"] == rw.NOTIFICATION else "other"}', f'{kind} written on a connection after the peer\'s NOTIFICATION had been read from it', dict(wit, event=e), cls)
+            return
     if sess['rx_tail']:
         res.violation('C10/partial-message-written', 'connection closed with a partial message written', wit, cls)
+        return
+    if want == 'race':
+        kind = fault.split(':')[0]
+        if len(notifs) > 1:
+            res.violation(f'C10/two-notifications:{kind}', f'{len(notifs)} NOTIFICATIONs written', wit, cls)
+        elif sess['eof_at'] is None:
+            res.violation(f'C10/session-not-ended:{kind}', 'two reasons to end the session, connection still open', wit, cls)
+        elif notifs and after[-1][1] != rw.NOTIFICATION:
+            res.violation(f'C10/message-after-notification:{kind}', f'message type {after[-1][1]} received after the NOTIFICATION', wit, cls)
+        else:
+            got = None
+            if notifs:
+                b = bytes.fromhex(notifs[0][2].split('..')[0])
+                got = (b[0], b[1])
+            allowed = {'race-teardown+notif': {None, (6, 4)}, 'race-teardown+marker': {(6, 4), (1, 1)}, 'race-hold+notif': {None, (4, 0)}}[kind]
+            if got not in allowed:
+                res.violation(f'C10/wrong-code:{kind}:got{got}', f'{fault}: answered {got}, allowed {sorted(allowed, key=str)}', wit, cls)
+            else:
+                res.ok(cls, (kind, mode, got))
+                res.count(f'race-outcome:{kind}:{got}')
         return
     if want == 'silent':
         if notifs:
